@@ -340,3 +340,12 @@ func C12guards(p *load.Program, run *report.Run) {
 func C05kept(p *load.Program, run *report.Run) {
 	keptStateRule(p, run, []string{"compiler/ssa", "compiler/circuits"})
 }
+
+// C17entropy: the randomness of a garbling is read completely.  A Read on an io.Reader may return fewer bytes
+// than asked for; a garbling whose pooled buffers are only partly overwritten keeps labels of the garbling that
+// was released before it.
+func C17entropy(p *load.Program, run *report.Run) {
+	run.Rule("short-read", "in package circuit (all files): a Read on an io.Reader whose count is discarded is io.ReadFull")
+	lints.ShortRead(p, run, []string{"circuit"}, nil)
+	run.OK("short-read", "circuit", "", "no Read with a discarded count")
+}
